@@ -113,6 +113,21 @@ def case_slice(trace, case_id):
     return out
 
 
+def case_slices(trace, ids):
+    """lines of the listed cases of a trace part, in one pass"""
+    out, cur = {}, None
+    with open(trace) as f:
+        for line in f:
+            if line.startswith('{"k":"case"'):
+                cid = int(line.split('"id":', 1)[1].split(",", 1)[0])
+                cur = cid if cid in ids else None
+                if cur is not None:
+                    out[cur] = []
+            if cur is not None:
+                out[cur].append(line)
+    return out
+
+
 class FamilyRun:
     """builds, runs and validates one corpus family for the current tree; results are cached by tree hash"""
 
@@ -168,6 +183,7 @@ class FamilyRun:
                     agg["cnt"][k] = agg["cnt"].get(k, 0) + v
                 for k in ("events", "states", "distinct", "parts", "t_tlc"):
                     agg[k] += r[k]
+                agg["truncated"] = agg.get("truncated", False) or r.get("truncated", False)
                 if r["sample"] and len(agg["samples"]) < 3:
                     agg["samples"].append(r["sample"])
         agg["cases"] = agg["cnt"].get("cases", 0)
@@ -221,20 +237,27 @@ class FamilyRun:
                 head = [json.loads(x) for _, x in zip(range(6), f)]
             res["sample"] = {"suite": name, "first_events": head}
         seen_cases = set()
+        want = []
         for v in r["verdicts"]:
             v["suite"] = name
             v["part"] = os.path.basename(part)
             v["rule"] = b["names"].get(v.get("r"), "")
             v["primary"] = v["case"] not in seen_cases
             seen_cases.add(v["case"])
-            if v["primary"]:
-                # keep what is needed to replay the case: its events and the table
-                rp = os.path.join(self.dir, "replay-%s-%s-%d.json" % (name, os.path.basename(part), v["case"]))
-                if not os.path.exists(rp):
-                    json.dump({"suite": name, "case": v["case"], "table": b["tbl"],
-                               "events": [json.loads(l) for l in case_slice(part, v["case"])]}, open(rp, "w"))
-                v["replay"] = rp
+            if v["primary"] and len(want) < 25:
+                want.append(v["case"])
             res["verdicts"].append(v)
+        res["truncated"] = len(r["verdicts"]) >= 300
+        if want:
+            # keep what is needed to replay the first failing cases: their events and the table (one pass over the part)
+            slices = case_slices(part, set(want))
+            for v in res["verdicts"]:
+                if v["primary"] and v["case"] in slices:
+                    rp = os.path.join(self.dir, "replay-%s-%s-%d.json" % (name, os.path.basename(part), v["case"]))
+                    if not os.path.exists(rp):
+                        json.dump({"suite": name, "case": v["case"], "table": b["tbl"],
+                                   "events": [json.loads(l) for l in slices[v["case"]]]}, open(rp, "w"))
+                    v["replay"] = rp
         os.remove(part)
         if os.path.exists(outp):
             os.remove(outp)
